@@ -12,6 +12,12 @@ import (
 // implementations (ast/decode.go, ast/api_compat.go: what non-amd64 builds run). Replays run
 // the real natives.
 func verifAstStubs() {
+	// alg.Quote of the plain ASCII keys/strings these document families use
+	v.Stub("github.com/bytedance/sonic/internal/encoder/alg.Quote", func(buf []byte, val string, double bool) []byte {
+		buf = append(buf, '"')
+		buf = append(buf, val...)
+		return append(buf, '"')
+	})
 	v.Stub("(*github.com/bytedance/sonic/ast.Parser).decodeValue", func(self *Parser) (val types.JsonState) {
 		e, vv := decodeValue(self.s, self.p, self.dbuf == nil)
 		if e < 0 {
